@@ -513,7 +513,7 @@ def _thread_chain(rec, start, P, S, kind, known=None, max_steps=40, no_calls=Fal
                 S.add(t["dest"]["l"])
                 cur = t["t"]
                 continue
-        if k == "call" and no_calls:
+        if k == "call" and no_calls and not (want is not None and (t.get("callee") or "").endswith("Try::branch")):
             break
         if k == "call":
             if want is not None and (t.get("callee") or "").endswith("Try::branch") and t["args"] and t["args"][0].get("k") in ("move", "copy") and not t["args"][0]["pl"]["p"] and t["args"][0]["pl"]["l"] in S and not t["dest"]["p"] and t["t"] is not None:
@@ -596,7 +596,7 @@ def thread_known_variants(rec):
                 last = None
         if not last or last[0] == 0:
             continue
-        first = _thread_chain(rec, t["t"], set(), {last[0]}, last[1], known={}, max_steps=12, no_calls=True)
+        first = _thread_chain(rec, t["t"], set(), {last[0]}, last[1], known={}, max_steps=24, no_calls=True)
         if first is not None:
             _retarget(t, t["t"], first)
             changed = True
@@ -834,6 +834,32 @@ def desugar_combinators(prog, rec):
             else:
                 n_some = _splice_closure(prog, rec, _closure_rec(prog, kb), f, [], t["t"], t["unwind"], cl, sp, ex, lambda l0: some_of({"k": "move", "pl": {"l": l0, "p": []}}))
             blocks[bi]["term"] = {"k": "switch", "op": dict(copy.deepcopy(cond), k="copy"), "ty": "bool", "targets": [["0", n_none]], "otherwise": n_some, "span": sp, "exp": ex, "desugared": cn}
+            changed = True
+            continue
+        if cn in ("std::option::Option::ok_or", "std::option::Option::ok_or_else") and len(t["args"]) == 2 and t["args"][0].get("k") in ("move", "copy") and not t["args"][0]["pl"]["p"]:
+            # Some(v) => Ok(v), None => Err(e) / Err(f()) (library source of Option::ok_or / ok_or_else)
+            x, f = t["args"]
+            kb = None
+            if cn.endswith("ok_or_else"):
+                kdef = _closure_def_of(rec, f)
+                kb = prog.bodies.get(kdef) if kdef else None
+                if kb is None or kb.coroutine or kb.arg_count != 1 or len(kb.blocks) > 200 or kb.path == rec["path"]:
+                    continue
+            xl = x["pl"]["l"]
+            sp, ex, cl = t.get("span"), t.get("exp", ""), blocks[bi]["cleanup"]
+            dest = copy.deepcopy(t["dest"])
+            dl = len(rec["locals"])
+            rec["locals"].append({"ty": "isize", "ty_def": None, "user": False})
+            res_ = lambda var, op: [{"k": "assign", "pl": copy.deepcopy(dest), "rv": {"k": "agg", "ak": "adt", "adt": "std::result::Result", "variant": var, "fields": ["0"], "ops": [op]}, "span": sp, "exp": ex}]
+            n_some = len(blocks)
+            blocks.append({"cleanup": cl, "stmts": res_("Ok", {"k": "move", "pl": {"l": xl, "p": [["dc", "Some", 1], ["f", 0, "0"]]}}), "term": {"k": "goto", "t": t["t"], "span": sp, "exp": ex}})
+            if kb is None:
+                n_none = len(blocks)
+                blocks.append({"cleanup": cl, "stmts": res_("Err", copy.deepcopy(f)), "term": {"k": "goto", "t": t["t"], "span": sp, "exp": ex}})
+            else:
+                n_none = _splice_closure(prog, rec, _closure_rec(prog, kb), f, [], t["t"], t["unwind"], cl, sp, ex, lambda l0: res_("Err", {"k": "move", "pl": {"l": l0, "p": []}}))
+            blocks[bi]["stmts"].append({"k": "assign", "pl": {"l": dl, "p": []}, "rv": {"k": "discr", "pl": {"l": xl, "p": []}, "adt": "std::option::Option", "variants": [["0", "None"], ["1", "Some"]]}, "span": sp, "exp": ex})
+            blocks[bi]["term"] = {"k": "switch", "op": {"k": "move", "pl": {"l": dl, "p": []}}, "ty": "isize", "targets": [["0", n_none], ["1", n_some]], "otherwise": n_none, "span": sp, "exp": ex, "desugared": cn}
             changed = True
             continue
         if cn == "std::option::Option::transpose" and len(t["args"]) == 1 and t["args"][0].get("k") in ("move", "copy") and not t["args"][0]["pl"]["p"]:
@@ -1201,7 +1227,7 @@ def inline_rec(prog, rec, done, stack):
         # written out, so that what the helper stores through the reference is a definition of the caller's variable
         unbound = set()
         for i, a in enumerate(t["args"]):
-            tgt = _borrowed_place(blk, a)
+            tgt = _borrowed_place(blk, a, 0, rec)
             if tgt is not None:
                 _subst_deref(rec["blocks"][boff:], lmap(i + 1), tgt)
                 if not _mentions_local(rec["blocks"][boff:], lmap(i + 1)):
@@ -1221,14 +1247,16 @@ def inline_rec(prog, rec, done, stack):
         # closures handed to the helpers that were just copied in; constants they return
         devirtualise_closure_calls(prog, rec)
         thread_const_flags(rec)
+        scalar_replace(prog, rec)
     if changed:
         rec["transformed"] = True
     return rec if changed else None
 
 
-def _borrowed_place(blk, op, depth=0):
-    """the place `p` when the operand is a temporary assigned `&p` / `&mut p` earlier in this block (and p is a
-    plain path from a local: fields only, no pointer followed), else None"""
+def _borrowed_place(blk, op, depth=0, rec=None):
+    """the place `p` when the operand is a temporary assigned `&p` / `&mut p` earlier in this block — or, for a
+    temporary with that one definition, in an earlier block (the other arguments are computed in between) — and p
+    is a plain path from a local (fields only, no pointer followed), else None"""
     if not op or op.get("k") not in ("move", "copy") or op["pl"]["p"] or depth > 3:
         return None
     l = op["pl"]["l"]
@@ -1236,11 +1264,16 @@ def _borrowed_place(blk, op, depth=0):
     for st in blk["stmts"]:
         if st["k"] == "assign" and st["pl"]["l"] == l:
             found = st if not st["pl"]["p"] else None
+    if found is None and rec is not None and not rec["locals"][l].get("user"):
+        rv1 = _single_def(rec, l)
+        if rv1 is not None and rv1["k"] == "ref" and rv1.get("bk") in ("mut", "shared") and all(e[0] == "f" for e in rv1["pl"]["p"]) and not rec["locals"][rv1["pl"]["l"]].get("alias"):
+            return copy.deepcopy(rv1["pl"])
+        return None
     if found is None:
         return None
     rv = found["rv"]
     if rv["k"] == "use":
-        return _borrowed_place(blk, rv["op"], depth + 1)
+        return _borrowed_place(blk, rv["op"], depth + 1, rec)
     if rv["k"] != "ref" or rv.get("bk") not in ("mut", "shared"):
         return None
     pl = rv["pl"]
@@ -1248,7 +1281,8 @@ def _borrowed_place(blk, op, depth=0):
         # a re-borrow `&mut *q`, `&mut (*q).f` of a reference that was itself taken here
         inner = _borrowed_place(blk, {"k": "copy", "pl": {"l": pl["l"], "p": []}}, depth + 1)
         if inner is None:
-            return None
+            # … or of a reference that exists already (a `&mut self` parameter handed on): the same place, through it
+            return copy.deepcopy(pl)
         return {"l": inner["l"], "p": inner["p"] + copy.deepcopy(pl["p"][1:])}
     if all(e[0] == "f" for e in pl["p"]):
         return copy.deepcopy(pl)
@@ -1286,16 +1320,17 @@ def _drop_borrow(rec, blk, op, depth=0):
     # uses anywhere: the defining statement counts once, the call argument once
     if _mentions_local(rec["blocks"], l, limit=3):
         return
-    for i in range(len(blk["stmts"]) - 1, -1, -1):
-        st = blk["stmts"][i]
-        if st["k"] == "assign" and st["pl"]["l"] == l and not st["pl"]["p"]:
-            rv = st["rv"]
-            if rv["k"] == "ref":
-                del blk["stmts"][i]
-            elif rv["k"] == "use":
-                del blk["stmts"][i]
-                _drop_borrow(rec, blk, rv["op"], depth + 1)
-            return
+    for b2 in [blk] + [x for x in rec["blocks"] if x is not blk]:
+        for i in range(len(b2["stmts"]) - 1, -1, -1):
+            st = b2["stmts"][i]
+            if st["k"] == "assign" and st["pl"]["l"] == l and not st["pl"]["p"]:
+                rv = st["rv"]
+                if rv["k"] == "ref":
+                    del b2["stmts"][i]
+                elif rv["k"] == "use":
+                    del b2["stmts"][i]
+                    _drop_borrow(rec, b2, rv["op"], depth + 1)
+                return
 
 
 def _subst_deref(blocks, param, tgt):
@@ -1315,6 +1350,176 @@ def _subst_deref(blocks, param, tgt):
         walk(b["stmts"])
         if b["term"] is not None:
             walk(b["term"])
+
+
+_NO_DROP_TYS = ("u8", "u16", "u32", "u64", "u128", "usize", "i8", "i16", "i32", "i64", "i128", "isize", "bool", "char", "f32", "f64", "()")
+
+
+def scalar_replace(prog, rec):
+    """A local of a crate-local struct type that is only ever built from a struct literal (or moved in as a whole
+    from such a value), read and written field by field, and dropped — what a `struct MergeOutput { fileid, pos,
+    datafile, hintfile }` with `&mut self` helpers is once the helpers are written out — is replaced by one
+    variable per field, named `<variable>.<field>`. Grouping variables into a struct then changes nothing for
+    the rules that follow a variable."""
+    blocks = rec["blocks"]
+    locs = rec["locals"]
+    argc = rec.get("arg_count", 0)
+    cands = {}
+    for l, lo in enumerate(locs):
+        if l <= argc or lo.get("sroa"):
+            continue
+        head = strip_generics((lo.get("ty") or "").split("<")[0])
+        adt = prog.adts.get(head)
+        if not adt or adt.get("is_enum") or adt.get("has_dtor") or len(adt.get("variants", [])) != 1:
+            continue
+        flds = adt["variants"][0]["fields"]
+        if len(flds) < 2 or any(not f[0] or f[0][0].isdigit() for f in flds):
+            continue
+        cands[l] = {"fields": flds, "whole_ok": 0, "whole_all": 0, "ok": True}
+    if not cands:
+        return False
+
+    moves = []
+
+    def count(obj):
+        if isinstance(obj, list):
+            for x in obj:
+                count(x)
+        elif isinstance(obj, dict):
+            if "l" in obj and "p" in obj and isinstance(obj["l"], int) and isinstance(obj["p"], list):
+                c = cands.get(obj["l"])
+                if c is not None and (not obj["p"] or obj["p"][0][0] != "f"):
+                    c["whole_all"] += 1
+                for e in obj["p"]:
+                    if isinstance(e, list) and e and e[0] == "i" and e[1] in cands:
+                        cands[e[1]]["ok"] = False
+                return
+            for v in obj.values():
+                count(v)
+
+    for blk in blocks:
+        count(blk["stmts"])
+        if blk["term"] is not None:
+            count(blk["term"])
+        for st in blk["stmts"]:
+            if st["k"] in ("mention", "fakeread") and not st["pl"]["p"] and st["pl"]["l"] in cands:
+                cands[st["pl"]["l"]]["whole_ok"] += 1
+            if st["k"] == "assign" and not st["pl"]["p"] and st["pl"]["l"] in cands:
+                c = cands[st["pl"]["l"]]
+                rv = st["rv"]
+                if rv["k"] == "agg" and rv.get("ak") == "adt" and [f for f in rv.get("fields", [])] and set(rv["fields"]) == {f[0] for f in c["fields"]}:
+                    c["whole_ok"] += 1
+                elif rv["k"] == "use" and rv["op"].get("k") in ("move", "copy"):
+                    c["whole_ok"] += 1
+                    src = rv["op"]["pl"]
+                    if not src["p"] and src["l"] in cands:
+                        # one such struct moved into another (a `self` parameter taken by value): fine if both go
+                        cands[src["l"]]["whole_ok"] += 1
+                        moves.append((src["l"], st["pl"]["l"]))
+                else:
+                    c["ok"] = False
+        t = blk["term"]
+        if t and t["k"] == "drop" and not t["pl"]["p"] and t["pl"]["l"] in cands:
+            cands[t["pl"]["l"]]["whole_ok"] += 1
+        if t and t["k"] == "call" and not t["dest"]["p"] and t["dest"]["l"] in cands:
+            cands[t["dest"]["l"]]["ok"] = False
+    todo = {l: c for l, c in cands.items() if c["ok"] and c["whole_all"] == c["whole_ok"]}
+    # only worth it when the struct is updated in place (a field assigned after construction)
+    upd = set()
+    for blk in blocks:
+        for st in blk["stmts"]:
+            if st["k"] == "assign" and st["pl"]["p"] and st["pl"]["l"] in todo and st["pl"]["p"][0][0] == "f":
+                upd.add(st["pl"]["l"])
+    more = True
+    while more:
+        more = False
+        for a_, d_ in moves:
+            if a_ in todo and d_ in todo and ((a_ in upd) != (d_ in upd)):
+                upd |= {a_, d_}
+                more = True
+    todo = {l: c for l, c in todo.items() if l in upd}
+    more = True
+    while more:
+        more = False
+        for a_, d_ in moves:
+            if a_ in todo and d_ not in todo:
+                del todo[a_]
+                more = True
+    if not todo:
+        return False
+    names = {}
+    for d in rec.get("debug", []):
+        if not d["pl"]["p"] and d["pl"]["l"] in todo:
+            names[d["pl"]["l"]] = d["name"]
+    fmap = {}
+    for l, c in todo.items():
+        for fname, fty in c["fields"]:
+            nl = len(locs)
+            locs.append({"ty": fty, "ty_def": None, "user": True, "sroa": True, "inlined_from": locs[l].get("inlined_from")})
+            fmap[(l, fname)] = nl
+            rec.setdefault("debug", []).append({"name": "%s.%s" % (names.get(l, "_%d" % l), fname), "pl": {"l": nl, "p": []}, "arg": None})
+
+    def rewrite(obj):
+        if isinstance(obj, list):
+            for x in obj:
+                rewrite(x)
+        elif isinstance(obj, dict):
+            if "l" in obj and "p" in obj and isinstance(obj["l"], int) and isinstance(obj["p"], list):
+                if obj["l"] in todo and obj["p"] and obj["p"][0][0] == "f":
+                    obj["l"] = fmap[(obj["l"], obj["p"][0][2])]
+                    obj["p"] = obj["p"][1:]
+                return
+            for v in obj.values():
+                rewrite(v)
+
+    for bi in range(len(blocks)):
+        blk = blocks[bi]
+        out = []
+        for st in blk["stmts"]:
+            if st["k"] in ("mention", "fakeread") and not st["pl"]["p"] and st["pl"]["l"] in todo:
+                continue
+            if st["k"] in ("live", "dead") and st.get("l") in todo:
+                for fname, _ in todo[st["l"]]["fields"]:
+                    out.append({"k": st["k"], "l": fmap[(st["l"], fname)]})
+                continue
+            if st["k"] == "assign" and not st["pl"]["p"] and st["pl"]["l"] in todo:
+                l = st["pl"]["l"]
+                rv = st["rv"]
+                if rv["k"] == "agg":
+                    for fname, op in zip(rv["fields"], rv["ops"]):
+                        op2 = copy.deepcopy(op)
+                        rewrite(op2)
+                        out.append({"k": "assign", "pl": {"l": fmap[(l, fname)], "p": []}, "rv": {"k": "use", "op": op2}, "span": st.get("span"), "exp": st.get("exp", "")})
+                elif not rv["op"]["pl"]["p"] and rv["op"]["pl"]["l"] in todo:
+                    for fname, _ in todo[l]["fields"]:
+                        out.append({"k": "assign", "pl": {"l": fmap[(l, fname)], "p": []}, "rv": {"k": "use", "op": {"k": rv["op"]["k"], "pl": {"l": fmap[(rv["op"]["pl"]["l"], fname)], "p": []}}}, "span": st.get("span"), "exp": st.get("exp", "")})
+                else:
+                    src = rv["op"]
+                    for i, (fname, _) in enumerate(todo[l]["fields"]):
+                        out.append({"k": "assign", "pl": {"l": fmap[(l, fname)], "p": []}, "rv": {"k": "use", "op": {"k": src["k"], "pl": {"l": src["pl"]["l"], "p": copy.deepcopy(src["pl"]["p"]) + [["f", i, fname]]}}}, "span": st.get("span"), "exp": st.get("exp", "")})
+                continue
+            rewrite(st)
+            out.append(st)
+        blk["stmts"] = out
+        t = blk["term"]
+        if t is None:
+            continue
+        if t["k"] == "drop" and not t["pl"]["p"] and t["pl"]["l"] in todo:
+            l = t["pl"]["l"]
+            droppable = [(fname, fty) for fname, fty in todo[l]["fields"] if fty not in _NO_DROP_TYS]
+            nxt = t["t"]
+            # fields are dropped in declaration order: build the chain from the back
+            for fname, fty in reversed(droppable[1:]):
+                blocks.append({"cleanup": blk["cleanup"], "stmts": [], "term": dict(copy.deepcopy(t), pl={"l": fmap[(l, fname)], "p": []}, ty=fty, t=nxt)})
+                nxt = len(blocks) - 1
+            if droppable:
+                blk["term"] = dict(copy.deepcopy(t), pl={"l": fmap[(l, droppable[0][0])], "p": []}, ty=droppable[0][1], t=nxt)
+            else:
+                blk["term"] = {"k": "goto", "t": nxt, "span": t.get("span"), "exp": t.get("exp", "")}
+            continue
+        rewrite(t)
+    rec.setdefault("sroa", []).extend(sorted(names.get(l, "_%d" % l) for l in todo))
+    return True
 
 
 def desugar_only(prog, rec):
